@@ -24,6 +24,7 @@ func c04Leaves(full bool) []*qt.Node {
 	ls := []*qt.Node{
 		qt.T(qt.Word("a")), qt.T(qt.Int(5)), qt.F("f", qt.Word("b")), qt.F("f", qt.Wild("x*")), qt.F("f", qt.Regexp("/re/")),
 		qt.Cmp("n", ">=", qt.Int(4)), qt.Range("n", qt.Int(1), qt.Int(5), true), qt.Range("s", qt.Word("aa"), qt.Open(), false), qt.List("s", qt.Word("x"), qt.Int(2)),
+		qt.FV(qt.Int(5), qt.Wild("c*")),
 	}
 	if full {
 		ls = append(ls,
@@ -36,6 +37,9 @@ func c04Leaves(full bool) []*qt.Node {
 			qt.Range("n", qt.Int(1), qt.Float("2.5"), true), qt.Range("s", qt.Word("aa"), qt.Word("zz"), true), qt.Range("s", qt.Phrase("x,y"), qt.Phrase("z z"), false),
 			qt.Range("s", qt.Open(), qt.Word("mm"), true), qt.Range("n", qt.Open(), qt.Open(), true),
 			qt.List("n", qt.Int(1), qt.Float("2.5"), qt.Phrase("z z")), qt.List("s", qt.Phrase("a,b"), qt.Phrase("it's")),
+			qt.FV(qt.Int(5), qt.Wild("c*")), qt.FV(qt.Float("1.5"), qt.Wild("c?d")), qt.FV(qt.Int(-7), qt.Word("x")), qt.FV(qt.Int(5), qt.Regexp("/c*/")),
+			qt.F("f", qt.Regexp(`/C:\\/`)), qt.List("s", qt.Word("x"), qt.Word("x"), qt.Word("y")), qt.Range("n", qt.Int(5), qt.Int(5), true),
+			&qt.Node{Kind: qt.KCmp, Field: qt.Int(3), Cmp: ">", Val: qt.Int(2)}, &qt.Node{Kind: qt.KRange, Field: qt.Int(9), Lo: qt.Int(1), Hi: qt.Int(5), Incl: true},
 		)
 	}
 	return ls
@@ -103,6 +107,10 @@ func (c04) RunBatch(ctx *core.Ctx, batch int) {
 // (unbounded range ends are not values) and a description of each position.
 func valueSlots(n *qt.Node) (slots []*qt.Value, where []string) {
 	n.Walk(func(x *qt.Node) {
+		if x.Kind >= qt.KField && x.Kind <= qt.KList && x.Field.IsNum() {
+			// a number in field position is not a column: it is rendered as a value
+			slots, where = append(slots, &x.Field), append(where, "numeric-field")
+		}
 		switch x.Kind {
 		case qt.KTerm:
 			slots, where = append(slots, &x.Val), append(where, "term")
@@ -203,11 +211,26 @@ func quotedStarBound(t *qt.Node) bool {
 	return q
 }
 
+// numericFieldClosedRange: a number in field position of a range with two numeric bounds (the
+// field is then a value and is rendered once per comparison).
+func numericFieldClosedRange(t *qt.Node) bool {
+	q := false
+	t.Walk(func(x *qt.Node) {
+		if x.Kind == qt.KRange && x.Field.IsNum() && x.Lo.IsNum() && x.Hi.IsNum() {
+			q = true
+		}
+	})
+	return q
+}
+
 func c04Check(ctx *core.Ctx, t *qt.Node, text, df string, subs int) {
 	_ = t.Skeleton
 	class := "tree"
 	if quotedStarBound(t) {
 		class = "quoted-star-range-bound"
+	}
+	if numericFieldClosedRange(t) {
+		class = "numeric-field-closed-range"
 	}
 	sql, serr, psql, params, perr, ok := renderBoth(ctx, text, df)
 	if !ok {
